@@ -48,7 +48,7 @@ PROBES = ["twin_frame_compared", "twin_raw_compared", "history_compared", "reuse
           "reuse_after_failed_recording", "reuse_from_data", "estimate_seeded_on_template", "reuse_not_compared_interrupt_inside_source_request",
           "copy_of_load_fil", "copy_of_sizes", "record_default_header", "record_shared_header", "aborted_recording_in_history",
           "array_then_single", "from_data_seeded_estimate", "copy_of_load_h5", "copy_of_derived", "hashseed_program_compared", "near_twin_prefix",
-          "frame_from_consolidated_cadence", "copy_of_consolidated"]
+          "frame_from_consolidated_cadence", "copy_of_consolidated", "reuse_with_num_subblocks_reassigned"]
 
 SEAM_KEYS = {"clock": ["clock_origin", "clock_jitter_seed"], "entropy": ["entropy_salt"], "listing": ["listing"], "scratch": ["scratch"],
              "cwd": ["chdir"]}
@@ -313,10 +313,22 @@ def generate(rng, tier):
             pre = []
             mk = lambda i: {"op": "r_build", "id": i, "ant": ant, "el": el, "be": be}
             est = lambda i: []
+        setsub = []
+        mk1 = mk(1)
+        if rng.random() < 0.3:
+            # the reused backend has its num_subblocks re-assigned between the recordings; the fresh one is built with it
+            k = rng.randint(1, be["W"] + 2)
+            setsub = [{"op": "r_set_subblocks", "id": 0, "n": k}]
+            mk1 = copy.deepcopy(mk1)
+            if "num_subblocks" in mk1:
+                mk1["num_subblocks"] = k
+            else:
+                mk1["be"] = dict(mk1["be"], num_subblocks=k)
+            sc["set_subblocks"] = True
         sc["ops"] = pre + [mk(0)] + est(0) + [
-                           first,
+                           first] + setsub + [
                            {"op": "r_record", "id": 0, "stem": "a2", "num_blocks": n2, "header": h2, "digitize": d, "tag": "A"},
-                           mk(1)] + est(1) + [
+                           mk1] + est(1) + [
                            {"op": "r_replay_requests", "src": 0, "dst": 1, "upto_record": 1},
                            {"op": "r_record", "id": 1, "stem": "b2", "num_blocks": n2, "header": fresh_h2, "digitize": d, "tag": "B"}]
         sc["h2_kind"] = h2["kind"] + ("=h1" if h2["kind"] == "shared" and h1.get("name") == h2.get("name") else "")
@@ -597,6 +609,8 @@ def execute(sc, ctx):
             ctx.hit("reuse_after_failed_recording")
         if sc.get("from_data"):
             ctx.hit("reuse_from_data")
+        if sc.get("set_subblocks"):
+            ctx.hit("reuse_with_num_subblocks_reassigned")
         ctx.nontrivial = len(recs) == 2
         ctx.event(mode, a["digest"])
         if mode == "reuse" and a.get("reach", {}).get("interrupt_inside_source_request"):
